@@ -99,6 +99,8 @@ def run_unit(eng, qualname, timeout_ms=10000, instance=None, discharge=True, cro
 
 
 def instance_label(inst):
+    if '@label' in inst:
+        return inst['@label']
     return ','.join('%s=%r' % kv for kv in sorted(inst.items()))
 
 
@@ -131,6 +133,8 @@ def exec_path(eng, fi, c, instance):
         if pn not in cparams:
             raise Unsupported('parameter %s has no type in the contract signature' % pn)
         _, ty, _ = cparams[pn]
+        if instance and pn in instance.get('@types', {}):
+            ty = T.parse_ty(instance['@types'][pn])
         if instance and pn in instance:
             v = eng.lit(instance[pn])
         else:
